@@ -7,6 +7,7 @@ package main
 // a wrapper around the real rule executor.
 
 import (
+	"bufio"
 	"context"
 	"errors"
 	"fmt"
@@ -36,6 +37,7 @@ import (
 	"github.com/dadrus/heimdall/internal/logging"
 	"github.com/dadrus/heimdall/internal/otel/metrics/certificate"
 	"github.com/dadrus/heimdall/internal/rules"
+	"github.com/dadrus/heimdall/internal/rules/endpoint"
 	"github.com/dadrus/heimdall/internal/rules/mechanisms"
 	"github.com/dadrus/heimdall/internal/rules/rule"
 	"github.com/dadrus/heimdall/internal/watcher"
@@ -166,6 +168,22 @@ rules:
   forward_to: { host: "DEADHOST" }
   execute:
     - authenticator: anon
+- id: hangcomm
+  match: { routes: [ { path: /hang/comm } ] }
+  forward_to: { host: "UPSTREAM" }
+  execute:
+    - authenticator: anon
+    - authorizer: remote_blocked
+- id: hanggeneric
+  match: { routes: [ { path: /hang/generic } ] }
+  forward_to: { host: "UPSTREAM" }
+  execute:
+    - authenticator: generic_blocked
+- id: hangupstream
+  match: { routes: [ { path: /hang/upstream } ] }
+  forward_to: { host: "BLOCKEDHOST" }
+  execute:
+    - authenticator: anon
 `
 
 const c12Config = `
@@ -183,6 +201,12 @@ mechanisms:
     - id: basic
       type: basic_auth
       config: { user_id: user, password: secret }
+    - id: generic_blocked
+      type: generic
+      config:
+        identity_info_endpoint: { url: "http://BLOCKEDHOST/userinfo" }
+        authentication_data_source: [ { header: X-Token } ]
+        subject: { id: sub }
   authorizers:
     - id: deny
       type: deny
@@ -206,6 +230,11 @@ mechanisms:
       config:
         endpoint: { url: "http://DEADHOST/authz" }
         payload: "{}"
+    - id: remote_blocked
+      type: remote
+      config:
+        endpoint: { url: "http://BLOCKEDHOST/authz" }
+        payload: "{}"
   finalizers:
     - id: secret_header
       type: header
@@ -228,16 +257,81 @@ providers:
     src: RULESFILE
 `
 
+// c12WaitStep is a scripted pipeline step behind a `/ctxwait/...` path: it waits on "a remote system" with the
+// context of the request, as every mechanism of heimdall does, and fails the way the mechanisms fail when that context
+// is done meanwhile. Either a real outbound call through endpoint.Endpoint.SendRequest to a server which never
+// answers (send), or a wait for ctx.AppContext() followed by the given error value.
+type c12WaitStep struct {
+	send bool
+	err  error
+}
+
+const c12WaitLimit = 15 * time.Second
+
 type c12Recorder struct {
-	inner rule.Executor
-	mu    sync.Mutex
-	last  map[string]any
+	inner   rule.Executor
+	blocked string // address of the server which never answers
+	mu      sync.Mutex
+	last    map[string]any
+	rctx    string
+	waits   map[string]c12WaitStep
+}
+
+func (r *c12Recorder) script(path string, step c12WaitStep) {
+	r.mu.Lock()
+	defer r.mu.Unlock()
+
+	if r.waits == nil {
+		r.waits = map[string]c12WaitStep{}
+	}
+
+	r.waits[path] = step
+}
+
+func (r *c12Recorder) wait(ctx heimdall.Context, step c12WaitStep) error {
+	if step.send {
+		_, err := endpoint.Endpoint{URL: "http://" + r.blocked + "/resource", Method: http.MethodGet}.
+			SendRequest(ctx.AppContext(), nil, nil)
+		if err == nil {
+			err = errors.New("the server which never answers has answered")
+		}
+
+		return err
+	}
+
+	select {
+	case <-ctx.AppContext().Done():
+	case <-time.After(c12WaitLimit):
+	}
+
+	return step.err
 }
 
 // Execute delegates to the real executor and remembers which error will reach the translator: the returned error
 // or, for a handled error, the pipeline error kept by the request context.
 func (r *c12Recorder) Execute(ctx heimdall.Context) (rule.Backend, error) {
-	be, err := r.inner.Execute(ctx)
+	var (
+		be  rule.Backend
+		err error
+	)
+
+	r.mu.Lock()
+	step, scripted := r.waits[ctx.Request().URL.Path]
+	r.mu.Unlock()
+
+	if scripted {
+		err = r.wait(ctx, step)
+	} else {
+		be, err = r.inner.Execute(ctx)
+	}
+
+	// the state of the context of the request when the pipeline has returned
+	rctx := "live"
+	if cerr := ctx.AppContext().Err(); errors.Is(cerr, context.DeadlineExceeded) {
+		rctx = "deadline"
+	} else if cerr != nil {
+		rctx = "cancelled"
+	}
 
 	seen := err
 	if seen == nil {
@@ -251,6 +345,7 @@ func (r *c12Recorder) Execute(ctx heimdall.Context) (rule.Backend, error) {
 
 	r.mu.Lock()
 	r.last = c12TermOf(seen, 0)
+	r.rctx = rctx
 	r.mu.Unlock()
 
 	return be, err
@@ -266,6 +361,16 @@ func (r *c12Recorder) take() map[string]any {
 	return t
 }
 
+func (r *c12Recorder) takeState() string {
+	r.mu.Lock()
+	defer r.mu.Unlock()
+
+	s := r.rctx
+	r.rctx = ""
+
+	return s
+}
+
 type c12Stack struct {
 	app       *fx.App
 	rec       *c12Recorder
@@ -276,6 +381,40 @@ type c12Stack struct {
 	addr      map[string]string
 	conn      *grpc.ClientConn
 	dir       string
+	held      *c12HeldConns
+}
+
+// connections accepted by the server which never answers
+type c12HeldConns struct {
+	mu     sync.Mutex
+	conns  []net.Conn
+	closed bool
+}
+
+func (h *c12HeldConns) add(conn net.Conn) {
+	h.mu.Lock()
+	defer h.mu.Unlock()
+
+	if h.closed {
+		conn.Close()
+
+		return
+	}
+
+	h.conns = append(h.conns, conn)
+}
+
+func (h *c12HeldConns) closeAll() {
+	h.mu.Lock()
+	defer h.mu.Unlock()
+
+	h.closed = true
+
+	for _, conn := range h.conns {
+		conn.Close()
+	}
+
+	h.conns = nil
 }
 
 func (s *c12Stack) stop() {
@@ -293,6 +432,10 @@ func (s *c12Stack) stop() {
 
 	for _, l := range s.listeners {
 		l.Close()
+	}
+
+	if s.held != nil {
+		s.held.closeAll()
 	}
 
 	if s.app != nil {
@@ -380,9 +523,37 @@ func c12StartStack(c map[string]any, cfgText string, mutate func(*config.Configu
 		}
 	}()
 
+	// a "remote system" which takes requests and never answers them: whoever calls it waits until his context is
+	// done (or the stack is stopped)
+	blocked, err := c12Listen()
+	if err != nil {
+		return st, err
+	}
+
+	st.listeners = append(st.listeners, blocked)
+	st.held = &c12HeldConns{}
+
+	go func() {
+		for {
+			conn, err := blocked.Accept()
+			if err != nil {
+				return
+			}
+
+			st.held.add(conn)
+
+			go func() {
+				// read whatever arrives; the connection ends when the caller gives up
+				io.Copy(io.Discard, conn) //nolint:errcheck
+				conn.Close()
+			}()
+		}
+	}()
+
 	rulesFile := filepath.Join(dir, "rules.yaml")
 	rulesText := strings.ReplaceAll(c12Rules+c12RedirectRules(getInts(c, "rcodes")), "UPSTREAM", upstream.Addr().String())
 	rulesText = strings.ReplaceAll(rulesText, "DEADHOST", dead.Addr().String())
+	rulesText = strings.ReplaceAll(rulesText, "BLOCKEDHOST", blocked.Addr().String())
 
 	if err = os.WriteFile(rulesFile, []byte(rulesText), 0o600); err != nil {
 		return st, err
@@ -391,6 +562,7 @@ func c12StartStack(c map[string]any, cfgText string, mutate func(*config.Configu
 	cfgFile := filepath.Join(dir, "heimdall.yaml")
 	cfgText = strings.ReplaceAll(cfgText, "RULESFILE", rulesFile)
 	cfgText = strings.ReplaceAll(cfgText, "DEADHOST", dead.Addr().String())
+	cfgText = strings.ReplaceAll(cfgText, "BLOCKEDHOST", blocked.Addr().String())
 
 	if err = os.WriteFile(cfgFile, []byte(cfgText), 0o600); err != nil {
 		return st, err
@@ -435,7 +607,7 @@ func c12StartStack(c map[string]any, cfgText string, mutate func(*config.Configu
 	}
 
 	st.conf = conf
-	st.rec = &c12Recorder{inner: exec}
+	st.rec = &c12Recorder{inner: exec, blocked: blocked.Addr().String()}
 	logger = zerolog.Nop()
 
 	for _, name := range []string{"decision", "proxy"} {
@@ -511,6 +683,10 @@ func (s *c12Stack) doHTTP(svc, path string, accept any, extra map[string]any) c1
 
 	defer res.Body.Close()
 
+	return c12FromHTTPResponse(svc, res)
+}
+
+func c12FromHTTPResponse(svc string, res *http.Response) c12Resp {
 	body, _ := io.ReadAll(res.Body)
 
 	var hdrs [][]string
@@ -536,6 +712,68 @@ func (s *c12Stack) doHTTP(svc, path string, accept any, extra map[string]any) c1
 
 	return c12Resp{Out: out, Status: res.StatusCode, Hdrs: c12SortHdrs(hdrs), Body: len(body) != 0,
 		Fmt: c12BodyFmt(body), GRPC: -1}
+}
+
+// doHalfClose is a client which sends its request, closes its SENDING direction only (shutdown(SHUT_WR): what netcat,
+// HTTP/1.0 style clients and some load balancers do) and then reads the answer. net/http's background read sees EOF
+// and cancels the context of the request — while the client is still waiting for its response.
+func (s *c12Stack) doHalfClose(svc, path string, accept any, extra map[string]any, delay time.Duration) c12Resp {
+	noAnswer := func(why string, err error) c12Resp {
+		return c12Resp{Out: "noresp", GRPC: -1, Hdrs: [][]string{{"error", why + ": " + err.Error()}}}
+	}
+
+	conn, err := net.DialTimeout("tcp", s.addr[svc], 10*time.Second)
+	if err != nil {
+		return noAnswer("dial", err)
+	}
+
+	defer conn.Close()
+
+	var sb strings.Builder
+
+	sb.WriteString("GET " + path + " HTTP/1.1\r\nHost: " + s.addr[svc] + "\r\nUser-Agent: c12-half-close\r\n")
+
+	if a, ok := accept.(string); ok {
+		sb.WriteString("Accept: " + a + "\r\n")
+	}
+
+	for k, v := range extra {
+		if sv, ok := v.(string); ok {
+			sb.WriteString(k + ": " + sv + "\r\n")
+		}
+	}
+
+	sb.WriteString("\r\n")
+
+	if _, err = conn.Write([]byte(sb.String())); err != nil {
+		return noAnswer("write", err)
+	}
+
+	if delay > 0 {
+		// the pipeline is already waiting when the FIN arrives
+		time.Sleep(delay)
+	}
+
+	tcp, ok := conn.(*net.TCPConn)
+	if !ok {
+		return noAnswer("half-close", errors.New("not a TCP connection"))
+	}
+
+	if err = tcp.CloseWrite(); err != nil {
+		return noAnswer("half-close", err)
+	}
+
+	conn.SetReadDeadline(time.Now().Add(2 * c12WaitLimit)) //nolint:errcheck
+
+	res, err := http.ReadResponse(bufio.NewReader(conn), nil)
+	if err != nil {
+		// the connection was closed without any response
+		return noAnswer("read", err)
+	}
+
+	defer res.Body.Close()
+
+	return c12FromHTTPResponse(svc, res)
 }
 
 func (s *c12Stack) doGRPC(path string, accept any, extra map[string]any) c12Resp {
@@ -624,7 +862,33 @@ func c12RunServices(c map[string]any) (any, error) {
 
 		var resp c12Resp
 
-		switch svc := getStr(rq, "svc"); svc {
+		svc := getStr(rq, "svc")
+
+		if w, ok := rq["werr"]; ok && w != nil {
+			// a scripted step which waits with the context of the request and then fails
+			step := c12WaitStep{send: getStr(obj(w), "t") == "send"}
+
+			if !step.send {
+				if step.err, err = c12BuildErr(obj(w)); err != nil {
+					return nil, err
+				}
+			}
+
+			st.rec.script(getStr(rq, "path"), step)
+		}
+
+		switch {
+		case getBool(rq, "hc") && svc != "envoy":
+			begin := time.Now()
+			resp = st.doHalfClose(svc, getStr(rq, "path"), rq["accept"], obj(rq["hdr"]),
+				time.Duration(getInt(rq, "hcdelay"))*time.Millisecond)
+			out = append(out, map[string]any{"err": st.rec.take(), "resp": resp, "rctx": st.rec.takeState(),
+				"ms": time.Since(begin).Milliseconds()})
+
+			continue
+		}
+
+		switch svc {
 		case "decision", "proxy":
 			resp = st.doHTTP(svc, getStr(rq, "path"), rq["accept"], obj(rq["hdr"]))
 		case "envoy":
@@ -633,7 +897,7 @@ func c12RunServices(c map[string]any) (any, error) {
 			return nil, errors.New("unknown service " + svc)
 		}
 
-		out = append(out, map[string]any{"err": st.rec.take(), "resp": resp})
+		out = append(out, map[string]any{"err": st.rec.take(), "resp": resp, "rctx": st.rec.takeState()})
 	}
 
 	return out, nil
